@@ -91,6 +91,64 @@ func main() {
 			usage()
 		}
 		os.Exit(runProps([]string{pos[0]}, *tier, *repo, *verif, seed, !*noEv, *only))
+	case "coverage":
+		// which functions have obligations anchored inside them (blind-spot finder, not a check)
+		p, err := Load(*repo, "", "")
+		if err != nil {
+			fmt.Fprintln(os.Stderr, err)
+			os.Exit(1)
+		}
+		type span struct {
+			file       string
+			start, end int
+			name       string
+			n          int
+			rules      map[string]bool
+			instrs     int
+		}
+		var spans []*span
+		for _, f := range p.Funcs {
+			if f.Syntax() == nil || f.Parent() != nil {
+				continue
+			}
+			ps, pe := p.Fset.Position(f.Syntax().Pos()), p.Fset.Position(f.Syntax().End())
+			ni := 0
+			for _, b := range f.Blocks {
+				ni += len(b.Instrs)
+			}
+			spans = append(spans, &span{filepath.Base(ps.Filename), ps.Line, pe.Line, p.FuncName(f), 0, map[string]bool{}, ni})
+		}
+		for _, r := range allRules {
+			res := runRule(p, r, "quick", "")
+			for _, o := range res.Obs {
+				var file string
+				var line int
+				if i := strings.LastIndex(o.Pos, ":"); i > 0 {
+					file = o.Pos[:i]
+					fmt.Sscan(o.Pos[i+1:], &line)
+				}
+				for _, sp := range spans {
+					if sp.file == file && line >= sp.start && line <= sp.end {
+						sp.n++
+						sp.rules[r.ID] = true
+					}
+				}
+			}
+		}
+		sort.Slice(spans, func(i, j int) bool {
+			if spans[i].n != spans[j].n {
+				return spans[i].n < spans[j].n
+			}
+			return spans[i].instrs > spans[j].instrs
+		})
+		for _, sp := range spans {
+			var rs []string
+			for r := range sp.rules {
+				rs = append(rs, r)
+			}
+			sort.Strings(rs)
+			fmt.Printf("%4d obligations %5d instrs  %s:%d  %s  %s\n", sp.n, sp.instrs, sp.file, sp.start, sp.name, strings.Join(rs, ","))
+		}
 	case "all":
 		props := map[string]bool{}
 		for _, r := range allRules {
